@@ -108,7 +108,6 @@ pub enum Ev {
     EvalEnd { tag: Tag, verdict: Verdict },
     Sent { host: usize, tag: u64, to: SocketAddr, at: Duration, local: bool },
     Recv { host: usize, tag: u64, from: SocketAddr, at: Duration },
-    Note(String),
 }
 
 pub type Log = Rc<RefCell<Vec<Ev>>>;
@@ -123,7 +122,6 @@ pub fn fmt_ev(e: &Ev) -> String {
         Ev::EvalEnd { verdict, .. } => format!("  => {verdict:?}"),
         Ev::Sent { host, tag, to, at, local } => format!("h{host} send #{:x} to {to}{} @{at:?}", tag & 0xffff_ffff, if *local { " (local)" } else { "" }),
         Ev::Recv { host, tag, from, at } => format!("h{host} recv #{:x} from {from} @{at:?}", tag & 0xffff_ffff),
-        Ev::Note(s) => s.clone(),
     }
 }
 
